@@ -388,7 +388,7 @@ def build(x):
     pieces += ["impl<O, F, Op> KeyedFold<O, F, Op>\nwhere\n    Op::Out: KeyedItem,\n    F: Fn(&mut O, <Op::Out as KeyedItem>::Value) + Send + Clone,\n    O: Send + Clone,\n    Op: Operator,\n{", pi, "}"]
 
     nx = x.method(F, 'KeyedFold', 'next', trait='Operator')
-    nx.replace_exact('V-TRAIT', 'StreamElement<Self::Out>', 'StreamElement<(<Op::Out as KeyedItem>::Key, O)>', detail='associated type Out substituted by its definition')
+    nx.replace_exact('V-TRAIT', 'StreamElement<Self::Out>', 'StreamElement<(<Op::Out as KeyedItem>::Key, O)>', detail='associated type Out substituted by its definition', count=None)
     nx.name_result('r')
     nx.add_spec(NEXT_SPEC)
     nx.text = '#[verifier::exec_allows_no_decreases_clause]\n' + nx.text
